@@ -190,7 +190,10 @@ func run(tapeJSON json.RawMessage, res *core.Result) {
 			return reply
 		}
 		switch tp.Net {
-		case "krberror":
+		case "krberror", "krberror-tcp-after-refuse", "krberror-tcp-after-toobig":
+			if tp.Net != "krberror" && proto != "tcp" {
+				return reply
+			}
 			if !errShot {
 				errShot = true
 				res.Probes["krb-error-delivered"]++
@@ -255,6 +258,7 @@ func run(tapeJSON json.RawMessage, res *core.Result) {
 	} else {
 		cl = client.NewWithPassword("alice", "SIM.TEST", password, cfg, opts...)
 	}
+	udpFault := map[string]string{"krberror-tcp-after-refuse": "refuse", "krberror-tcp-after-toobig": "toobig"}[tp.Net]
 	if tp.Net == "dup" {
 		for _, a := range []string{simAddr, otherAddr} {
 			net.Beh["udp!"+a] = world.Behaviour{Kind: "dup"}
@@ -297,6 +301,12 @@ func run(tapeJSON json.RawMessage, res *core.Result) {
 			}
 		}
 		simrt.SleepExact(int64(3 * time.Second))
+		if udpFault != "" {
+			// the first transport fails (or asks for TCP); the KDC's error then arrives over TCP
+			for _, a := range []string{simAddr, otherAddr} {
+				net.Beh["udp!"+a] = world.Behaviour{Kind: udpFault}
+			}
+		}
 		armed = true
 		opErr = guard(func() error {
 			if tp.Exchange == "as" {
@@ -432,7 +442,7 @@ func run(tapeJSON json.RawMessage, res *core.Result) {
 	switch {
 	case errShot:
 		c := tp.NetArg
-		retry := c == 52 && !tp.TCP || tp.Exchange == "as" && (c == 24 || c == 25 || c == 68)
+		retry := c == 52 && !tp.TCP && udpFault == "" || tp.Exchange == "as" && (c == 24 || c == 25 || c == 68)
 		want := fmt.Sprintf("err:%d", c)
 		switch {
 		case retry:
